@@ -197,6 +197,7 @@ type LState struct {
 	ctx          context.Context
 	ctxCancelFn  context.CancelFunc
 	ctxBase      context.Context
+	yieldNRet    int
 }
 
 func (ls *LState) String() string   { return fmt.Sprintf("thread: %p", ls) }
